@@ -579,11 +579,11 @@ func (c *Ctx) isRegistryLookupOf(v ssa.Value, typG *ssa.Global, dyn *ssa.Call, d
 		return c.isRegistryLookupOf(x.X, typG, dyn, depth+1)
 	case *ssa.Lookup:
 		u, ok := x.X.(*ssa.UnOp)
-		return ok && u.X == ssa.Value(typG) && x.Index == ssa.Value(dyn)
+		return ok && u.X == ssa.Value(typG) && isDynResult(x.Index, dyn)
 	case *ssa.Call:
 		// esn: StrToType(s) — a module function that itself returns the lookup of its parameter
 		cal := x.Call.StaticCallee()
-		if cal == nil || !c.InModule(cal) || len(x.Call.Args) != 1 || x.Call.Args[0] != ssa.Value(dyn) {
+		if cal == nil || !c.InModule(cal) || len(x.Call.Args) != 1 || !isDynResult(x.Call.Args[0], dyn) {
 			return false
 		}
 		for _, b := range cal.Blocks {
@@ -595,6 +595,9 @@ func (c *Ctx) isRegistryLookupOf(v ssa.Value, typG *ssa.Global, dyn *ssa.Call, d
 				continue
 			}
 			rv := ret.Results[0]
+			if isNilConst(rv) {
+				continue // "not registered": nil
+			}
 			if ex, ok := rv.(*ssa.Extract); ok {
 				rv = ex.Tuple
 			}
@@ -662,7 +665,16 @@ func (c *Ctx) toTransformRule(r *Report, rule string, rs regSpec, ti int) {
 			return false
 		}
 		if call.Call.IsInvoke() {
-			return call.Call.Method.Name() == method && paramIndex(fn, call.Call.Value) == 0
+			recv := call.Call.Value
+			// the descriptor viewed through a narrower local interface (a shared helper's parameter type)
+			for i := 0; i < 3; i++ {
+				if ci, ok := recv.(*ssa.ChangeInterface); ok {
+					recv = ci.X
+					continue
+				}
+				break
+			}
+			return call.Call.Method.Name() == method && paramIndex(fn, recv) == 0
 		}
 		// ESN is a struct: static call (*ESN).Method(&local copy of the parameter)
 		cal := call.Call.StaticCallee()
@@ -1039,4 +1051,29 @@ func (c *Ctx) calleeGuardsField(gen *ssa.Function, fld string) bool {
 		}
 	}
 	return true
+}
+
+
+// isDynResult: v is the stringifier's result, possibly merged with the empty string of the "no stringifier
+// for this identifier" path (a helper that returns "" when the identifier is unknown).
+func isDynResult(v ssa.Value, dyn *ssa.Call) bool {
+	if v == ssa.Value(dyn) {
+		return true
+	}
+	ph, ok := v.(*ssa.Phi)
+	if !ok {
+		return false
+	}
+	seen := false
+	for _, e := range ph.Edges {
+		if e == ssa.Value(dyn) {
+			seen = true
+			continue
+		}
+		k, ok := e.(*ssa.Const)
+		if !ok || k.Value == nil || k.Value.ExactString() != `""` {
+			return false
+		}
+	}
+	return seen
 }
